@@ -101,13 +101,20 @@ func tokOf(v any) int {
 
 // ---- errors ----
 
-type userErr struct{ n int }
+// userErr: a custom error type that itself wraps an inner error (so that code which unwraps "to the cause"
+// loses it for errors.As)
+type userErr struct {
+	n     int
+	inner error
+}
 
 func (e *userErr) Error() string { return fmt.Sprintf("user error %d", e.n) }
+func (e *userErr) Unwrap() error { return e.inner }
 
 var (
 	errMu     sync.Mutex
 	sentinels = map[int]error{}
+	issued    = map[int]error{} // the exact error VALUE a callback returns for `!n`
 )
 
 func sentinel(n int) error {
@@ -121,20 +128,33 @@ func sentinel(n int) error {
 	return e
 }
 
-// userError is what a scripted callback returns for `!n`: a plain sentinel, a %w-wrapped sentinel,
-// or a custom-typed error, depending on n%3 (property C04 names all three).
+// userError is what a scripted callback returns for `!n`: a plain sentinel, a %w-wrapped sentinel, or a
+// custom-typed error that wraps an inner error, depending on n%3 (property C04 names all three). The same
+// value is returned every time, so the harness can ask errors.Is for that very value.
 func userError(n int) error {
+	errMu.Lock()
+	if e, ok := issued[n]; ok {
+		errMu.Unlock()
+		return e
+	}
+	errMu.Unlock()
+	var e error
 	switch n % 3 {
 	case 0:
-		return sentinel(n)
+		e = sentinel(n)
 	case 1:
-		return fmt.Errorf("callback context: %w", sentinel(n))
+		e = fmt.Errorf("callback context: %w", sentinel(n))
 	default:
-		return &userErr{n: n}
+		e = &userErr{n: n, inner: errors.New("inner cause")}
 	}
+	errMu.Lock()
+	issued[n] = e
+	errMu.Unlock()
+	return e
 }
 
-// errStr reduces an error to its root as errors.Is / errors.As see it.
+// errStr reduces an error to its root as errors.Is / errors.As see it: `u<n>` only if the error matches
+// the exact value the callback returned (errors.Is on that value, errors.As for the custom type).
 func errStr(err error) string {
 	if err == nil {
 		return "fo"
@@ -144,8 +164,8 @@ func errStr(err error) string {
 		return "u" + strconv.Itoa(ue.n)
 	}
 	errMu.Lock()
-	for n, s := range sentinels {
-		if errors.Is(err, s) {
+	for n, e := range issued {
+		if n%3 != 2 && errors.Is(err, e) {
 			errMu.Unlock()
 			return "u" + strconv.Itoa(n)
 		}
